@@ -1,5 +1,14 @@
+//! Access-controller checks (C40): a safety monitor over histories of access-controller calls.
+mod c40;
+
 fn main() {
     let args = rv_common::parse_args();
-    eprintln!("no check named {}", args.prop);
-    std::process::exit(2);
+    let code = match args.prop.as_str() {
+        "C40" => c40::run(&args),
+        other => {
+            eprintln!("rv-accessctl: no check named {other}");
+            2
+        }
+    };
+    std::process::exit(code);
 }
